@@ -30,43 +30,42 @@ impl Flags {
     pub fn create_new(&mut self, v: bool) -> &mut Self { self.create_new = v; self }
 }
 /// an expanded field
+// (not zero-sized: CBMC 6.11 aborts in bits2expr when it builds a counterexample trace over an array of zero-sized elements)
 #[derive(Clone, Copy)]
-pub struct Fld;
+pub struct Fld(pub u8);
 impl Fld { pub fn as_str(&self) -> &str { "" } }
 /// stand-in for PathBuf: remembers how it was made
 #[derive(Clone, Copy)]
-pub struct PathTok { pub resolved_against_shell_cwd: bool }
+pub struct PathTok { pub resolved_against_shell_cwd: bool, pub is_existing_regular_file: bool }
 pub type PathBuf = PathTok;
-static mut EXISTS_ABS: bool = false;     // is the *intended* file (relative to the shell's cwd) an existing regular file
-static mut EXISTS_REL: bool = false;     // what the same relative name means in the process's start directory (unrelated)
-static mut PROBES: u8 = 0;
 impl PathTok {
-    pub fn is_file(&self) -> bool { unsafe { PROBES += 1; if self.resolved_against_shell_cwd { EXISTS_ABS } else { EXISTS_REL } } }
+    pub fn is_file(&self) -> bool { self.is_existing_regular_file }
     pub fn to_string_lossy(&self) -> std::borrow::Cow<'static, str> { std::borrow::Cow::Borrowed("") }
     pub fn exists(&self) -> bool { self.is_file() }
     pub fn as_path(&self) -> &PathTok { self }
 }
-impl From<Fld> for PathTok { fn from(_f: Fld) -> Self { PathTok { resolved_against_shell_cwd: false } } }
-impl From<&str> for PathTok { fn from(_f: &str) -> Self { PathTok { resolved_against_shell_cwd: false } } }
+// a path built straight from the field is relative to the *process* directory: what exists there is unrelated (carried by the field token)
+impl From<Fld> for PathTok { fn from(f: Fld) -> Self { PathTok { resolved_against_shell_cwd: false, is_existing_regular_file: f.0 == 1 } } }
+impl From<&str> for PathTok { fn from(_f: &str) -> Self { PathTok { resolved_against_shell_cwd: false, is_existing_regular_file: false } } }
 impl AsRef<PathTok> for PathTok { fn as_ref(&self) -> &PathTok { self } }
-pub struct OpenErr;
+pub struct OpenErr(pub u8);
 impl std::fmt::Display for OpenErr { fn fmt(&self, _f: &mut std::fmt::Formatter<'_>) -> std::fmt::Result { Ok(()) } }
 pub struct DOpts { pub disallow_overwriting_regular_files_via_output_redirection: bool }
-pub struct DSh { pub o: DOpts, pub opens: u8, pub opened_flags: Flags, pub opened_path_resolved: bool, pub open_fails: bool }
+pub struct DSh { pub exists_in_shell_cwd: bool, pub o: DOpts, pub opens: u8, pub opened_flags: Flags, pub opened_path_resolved: bool, pub open_fails: bool }
 impl DSh {
     pub fn options(&self) -> &DOpts { &self.o }
-    pub fn absolute_path(&self, _p: &Path) -> PathTok { PathTok { resolved_against_shell_cwd: true } }
+    pub fn absolute_path(&self, _p: &Path) -> PathTok { PathTok { resolved_against_shell_cwd: true, is_existing_regular_file: self.exists_in_shell_cwd } }
     /// Shell::open_file resolves a relative path against the shell's working directory itself
     pub fn open_file<P: AsRef<PathTok>>(&mut self, opts: &Flags, p: P, _params: &DParams) -> Result<u8, OpenErr> {
         self.opens += 1; self.opened_flags = *opts; self.opened_path_resolved = p.as_ref().resolved_against_shell_cwd;
-        if self.open_fails { Err(OpenErr) } else { Ok(7) }
+        if self.open_fails { Err(OpenErr(1)) } else { Ok(7) }
     }
 }
 pub struct DOpenFiles { pub set_fd_num: Option<ShellFd>, pub sets: u8 }
 impl DOpenFiles { pub fn set_fd(&mut self, fd: ShellFd, _f: u8) { self.set_fd_num = Some(fd); self.sets += 1; } }
 pub struct DParams { pub open_files: DOpenFiles }
-pub struct XOracle { pub nfields: usize }
-impl XOracle { fn expand(&mut self) -> Result<Vec<Fld>, error::Error> { let mut v = Vec::new(); if self.nfields >= 1 { v.push(Fld); } if self.nfields >= 2 { v.push(Fld); } Ok(v) } }
+pub struct XOracle { pub nfields: usize, pub exists_in_process_dir: bool }
+impl XOracle { fn expand(&mut self) -> Result<Vec<Fld>, error::Error> { let mut v = Vec::new(); let b = self.exists_in_process_dir as u8; if self.nfields >= 1 { v.push(Fld(b)); } if self.nfields >= 2 { v.push(Fld(b)); } Ok(v) } }
 
 fn t_filename_arm(shell: &mut DSh, params: &mut DParams, specified_fd_num: &Option<ShellFd>, kind: &ast::IoFileRedirectKind, __o: &mut XOracle) -> Result<(), error::Error> {
     {
@@ -82,14 +81,13 @@ fn vk_c10_file_redirect_path_and_noclobber() {
     let k: u8 = kani::any(); kani::assume(k < 5);
     let kind = match k { 0 => ast::IoFileRedirectKind::Read, 1 => ast::IoFileRedirectKind::Write, 2 => ast::IoFileRedirectKind::Append, 3 => ast::IoFileRedirectKind::ReadAndWrite, _ => ast::IoFileRedirectKind::Clobber };
     let noclobber: bool = kani::any();
-    unsafe { EXISTS_ABS = kani::any(); EXISTS_REL = kani::any(); PROBES = 0; }
+    let (exists, exists_rel): (bool, bool) = (kani::any(), kani::any());
     let fd: Option<ShellFd> = if kani::any() { let n: ShellFd = kani::any(); kani::assume(n >= 0 && n <= 9); Some(n) } else { None };
-    let mut sh = DSh { o: DOpts { disallow_overwriting_regular_files_via_output_redirection: noclobber }, opens: 0, opened_flags: Flags::default(), opened_path_resolved: false, open_fails: kani::any() };
+    let mut sh = DSh { exists_in_shell_cwd: exists, o: DOpts { disallow_overwriting_regular_files_via_output_redirection: noclobber }, opens: 0, opened_flags: Flags::default(), opened_path_resolved: false, open_fails: kani::any() };
     let mut params = DParams { open_files: DOpenFiles { set_fd_num: None, sets: 0 } };
-    let mut o = XOracle { nfields: kani::any() }; kani::assume(o.nfields <= 2);
+    let mut o = XOracle { nfields: kani::any(), exists_in_process_dir: exists_rel }; kani::assume(o.nfields <= 2);
     let r = t_filename_arm(&mut sh, &mut params, &fd, &kind, &mut o);
-    let exists = unsafe { EXISTS_ABS };
-    kani::cover!(k == 1 && noclobber && exists && unsafe { !EXISTS_REL } && o.nfields == 1, "noclobber_target_exists_only_in_the_shells_directory");
+    kani::cover!(k == 1 && noclobber && exists && !exists_rel && o.nfields == 1, "noclobber_target_exists_only_in_the_shells_directory");
     kani::cover!(o.nfields == 2, "ambiguous_redirect");
     if o.nfields != 1 {
         assert!(r.is_err() && sh.opens == 0 && params.open_files.sets == 0, "C10.file.ambiguous_or_empty_target_is_an_error");
